@@ -17,7 +17,9 @@ EXPLANATION = (
     "finalize (hash first, dependency analysis last); (R06.7) all sites that contract the inverse Jacobian with a parametric "
     "gradient use the same row/column roles of JacInv.  R06.1 counts an attribute as hashed only if it reaches the key through "
     "injective operations (boolean, comparison and conditional expressions are reported as information-destroying); R06.2 also "
-    "requires every combiner of child hashes to keep the operands positional.")
+    "requires every combiner of child hashes to keep the operands positional; numeric attributes enter the key through a text "
+    "encoding (hash(-1) == hash(-2) in CPython); (R06.8 = R08.4) variables are scheduled after their inputs; (R06.9) the constant "
+    "test behind constant folding has an absolute tolerance <= 1e-12; (R06.10) destructive transforms work on private copies.")
 DOES_NOT_DECIDE = ("value preservation of replace_physical_derivs, _geo_hess_trf and the recursive det/inv/minor expansions "
                    "(that would be symbolic execution of recursive code)")
 TECHNIQUE = "custom AST rules: attribute def/use vs. hash-key table, order-provenance of sequences, polynomial/rational normal forms of rewrite rules"
